@@ -16,7 +16,13 @@ import (
 //     makes itself (0 = no cache-wide lock: the small-step theorem is the honest one);
 //   * core.go NewPodGroupManager: the handlers wired to the pod and PodGroup informers;
 //   * gang.go setChild: which of NodeName / WaitingForBindChildren / BoundChildren the guard of the
-//     PendingChildren insertion mentions.
+//     PendingChildren insertion mentions;
+//   * gang.go lock structure of the methods that touch the four child sets (the small-step model's
+//     critical sections): per method the number of gang.lock.Lock/RLock calls, of deferred and of
+//     explicit Unlock/RUnlock calls, and whether a child-set map is mentioned before the first Lock.
+//     One Lock + one deferred Unlock + no explicit Unlock + nothing before = the method is one section;
+//   * gang.go tryInitByPodConfig / tryInitByPodGroup: the test that guards the "gang is a group of its own"
+//     fallback (`groupSlice = append(groupSlice, gang.Name)`): "len==0" or "nil" (the model's groupOrSelf is len==0).
 func init() {
 	extractors["C04"] = func(e *ext) {
 		plug := "pkg/scheduler/plugins/coscheduling"
@@ -215,5 +221,123 @@ func init() {
 			e.fail("Gang.setChild not found")
 		}
 		fmt.Fprintf(&e.out, "def setChildPendingGuard : List String := %s\n", lst(guard))
+
+		// ---- lock structure of the Gang methods that touch the child sets ----
+		var shapes []string
+		setChildSections := 0
+		for _, m := range []string{"setChild", "addAssumedPod", "delAssumedPod", "addBoundPod", "deletePod", "isGangValidForPermit", "GetGangSummary"} {
+			fd := e.funcDecl(core, "Gang", m)
+			if fd == nil || fd.Body == nil {
+				e.fail("Gang.%s not found", m)
+				continue
+			}
+			locks, deferred, explicit := 0, 0, 0
+			firstLock := token.NoPos
+			firstMap := token.NoPos
+			isLockSel := func(c *ast.CallExpr, names ...string) bool {
+				s, ok := c.Fun.(*ast.SelectorExpr)
+				if !ok {
+					return false
+				}
+				l, ok := s.X.(*ast.SelectorExpr)
+				if !ok || l.Sel.Name != "lock" {
+					return false
+				}
+				for _, n := range names {
+					if s.Sel.Name == n {
+						return true
+					}
+				}
+				return false
+			}
+			deferredCalls := map[*ast.CallExpr]bool{}
+			ast.Inspect(fd.Body, func(x ast.Node) bool {
+				switch v := x.(type) {
+				case *ast.DeferStmt:
+					if isLockSel(v.Call, "Unlock", "RUnlock") {
+						deferred++
+						deferredCalls[v.Call] = true
+					}
+				case *ast.CallExpr:
+					if isLockSel(v, "Lock", "RLock") {
+						locks++
+						if firstLock == token.NoPos {
+							firstLock = v.Pos()
+						}
+					}
+					if isLockSel(v, "Unlock", "RUnlock") && !deferredCalls[v] {
+						explicit++
+					}
+				case *ast.SelectorExpr:
+					switch v.Sel.Name {
+					case "Children", "PendingChildren", "WaitingForBindChildren", "BoundChildren":
+						if firstMap == token.NoPos {
+							firstMap = v.Pos()
+						}
+					}
+				}
+				return true
+			})
+			before := firstMap != token.NoPos && (firstLock == token.NoPos || firstMap < firstLock)
+			shapes = append(shapes, fmt.Sprintf("(%s, %d, %d, %d, %v)", leanStr(m), locks, deferred, explicit, before))
+			if m == "setChild" {
+				setChildSections = locks
+			}
+		}
+		fmt.Fprintf(&e.out, "def gangLockShape : List (String × Nat × Nat × Nat × Bool) := [%s]\n", strings.Join(shapes, ", "))
+		fmt.Fprintf(&e.out, "def setChildSections : Nat := %d\n", setChildSections)
+
+		// ---- the fallback "the gang is a group of its own" ----
+		var fb []string
+		for _, m := range []string{"tryInitByPodConfig", "tryInitByPodGroup"} {
+			fd := e.funcDecl(core, "Gang", m)
+			if fd == nil || fd.Body == nil {
+				e.fail("Gang.%s not found", m)
+				continue
+			}
+			kind := "none"
+			ast.Inspect(fd.Body, func(x ast.Node) bool {
+				is, ok := x.(*ast.IfStmt)
+				if !ok {
+					return true
+				}
+				appends := false
+				ast.Inspect(is.Body, func(y ast.Node) bool {
+					if c, ok := y.(*ast.CallExpr); ok {
+						if id, ok := c.Fun.(*ast.Ident); ok && id.Name == "append" && len(c.Args) == 2 {
+							if a0, ok := c.Args[0].(*ast.Ident); ok && a0.Name == "groupSlice" {
+								if s1, ok := c.Args[1].(*ast.SelectorExpr); ok && s1.Sel.Name == "Name" {
+									appends = true
+								}
+							}
+						}
+					}
+					return true
+				})
+				if !appends {
+					return true
+				}
+				kind = "other"
+				if be, ok := is.Cond.(*ast.BinaryExpr); ok && be.Op == token.EQL {
+					if c, ok := be.X.(*ast.CallExpr); ok {
+						if id, ok := c.Fun.(*ast.Ident); ok && id.Name == "len" && len(c.Args) == 1 {
+							if a, ok := c.Args[0].(*ast.Ident); ok && a.Name == "groupSlice" {
+								if lit, ok := be.Y.(*ast.BasicLit); ok && lit.Value == "0" {
+									kind = "len==0"
+								}
+							}
+						}
+					}
+					if a, ok := be.X.(*ast.Ident); ok && a.Name == "groupSlice" {
+						if n, ok := be.Y.(*ast.Ident); ok && n.Name == "nil" {
+							kind = "nil"
+						}
+					}
+				}
+				return true
+			})
+			fb = append(fb, fmt.Sprintf("(%s, %s)", leanStr(m), leanStr(kind)))
+		}
+		fmt.Fprintf(&e.out, "def groupFallbackTest : List (String × String) := [%s]\n", strings.Join(fb, ", "))
 	}
 }
